@@ -350,6 +350,79 @@ fn generated_contract(subset: u32, ctor: bool, l1: bool) -> String {
     s
 }
 
+/// Compiles a generated contract source in a fresh Starknet database and runs the class oracle on every
+/// contract in it; `expect` = (external, constructor, l1_handler) entry point counts.
+fn check_generated(ctx: &mut Ctx, label: &str, src: &str, expect: Option<(usize, usize, usize)>) {
+    let mut db = starknet_db();
+    let ci = crate::pipe::set_src(&mut db, "gen", src);
+    let reporter = cairo_lang_compiler::diagnostics::DiagnosticsReporter::ignoring().with_crates(std::slice::from_ref(&ci)).allow_warnings();
+    let ids = CrateInput::into_crate_ids(&db, vec![ci]);
+    let contracts = find_contracts(&db, &ids);
+    let refs: Vec<_> = contracts.iter().collect();
+    match compile_prepared_db(&db, &refs, CompilerConfig { replace_ids: true, diagnostics_reporter: reporter, ..Default::default() }) {
+        Err(e) => {
+            ctx.count("generated_not_compiled", 1);
+            ctx.note(format!("{label}: {e}: {}", cairo_lang_compiler::diagnostics::get_diagnostics_as_string(&db, Some(ids.clone()))).chars().take(700).collect());
+        }
+        Ok(classes) => {
+            for (c, class) in contracts.iter().zip(classes) {
+                let mem = extract_semantic_entrypoints(&db, c).ok().and_then(|eps| {
+                    let fids: Vec<ConcreteFunctionWithBodyId<'_>> = eps.external.iter().chain(&eps.l1_handler).chain(&eps.constructor).map(|f| f.value).collect();
+                    let p = db.get_sierra_program_for_functions(fids).ok()?;
+                    let named = cairo_lang_sierra_generator::replace_ids::replace_sierra_ids_in_program(&db, &p.program);
+                    Some(CanonicalReplacer::from_program(&named).apply(&named))
+                });
+                if let Some((ne, nc, nl)) = expect {
+                    if class.entry_points_by_type.external.len() != ne || class.entry_points_by_type.constructor.len() != nc || class.entry_points_by_type.l1_handler.len() != nl {
+                        ctx.violation("generated-entry-point-count", "the class does not list exactly the declared entry points", json!({"contract":label,"source":src}));
+                    }
+                }
+                // where the unpacked length stands relative to the packing width (residue 0 = last felt exactly full)
+                let felts: Vec<BigUint> = class.sierra_program.iter().map(|f| f.value.clone()).collect();
+                if let Some((w, n)) = felts.get(6..).and_then(crate::c14::packing_shape) {
+                    ctx.outcome(&format!("unpacked-length-residue:{}/{w}", n % w));
+                }
+                check_class(ctx, label, &class, mem.as_ref());
+            }
+        }
+    }
+}
+
+/// The length ladder: one external function appending k constants, so that the felt-serialized program takes
+/// every length residue (the compression packs a fixed number of values per felt; the last felt is exactly
+/// full for about one program in 31).
+fn ladder_contract(k: usize) -> String {
+    let mut s = String::from("#[starknet::contract]\nmod c {\n    #[storage]\n    struct Storage {}\n    #[external(v0)]\n    fn fill(ref self: ContractState, first: felt252) -> Array<felt252> {\n        let mut arr = array![first];\n");
+    for i in 0..k {
+        s.push_str(&format!("        arr.append({});\n", 1000 + i));
+    }
+    s.push_str("        arr\n    }\n}\n");
+    s
+}
+
+/// Parameter / return shapes: each drives different (de)serialization code, builtins and gas in the wrapper.
+const SHAPES: &[(&str, &str, &str)] = &[
+    ("none", "", "1"),
+    ("felt", "a: felt252", "a"),
+    ("u8", "a: u8", "a"),
+    ("u256", "a: u256", "a"),
+    ("i128", "a: i128", "a"),
+    ("bool", "a: bool", "a"),
+    ("array", "a: Array<felt252>", "a"),
+    ("span-u8", "a: Span<u8>", "a.len()"),
+    ("tuple", "a: (u8, felt252, u256)", "a"),
+    ("option", "a: Option<u64>", "a"),
+    ("bytearray", "a: ByteArray", "a"),
+    ("many", "a: felt252, b: u8, c: u16, d: u32, e: u64, f: u128, g: bool, h: felt252", "(a, b, c, d, e, f, g, h)"),
+    ("address", "a: starknet::ContractAddress", "a"),
+    ("nested-array", "a: Array<Array<u8>>", "a.len()"),
+];
+fn shape_contract(i: usize) -> String {
+    let (_, params, ret) = SHAPES[i];
+    let sep = if params.is_empty() { "" } else { ", " };
+    format!("#[starknet::contract]\nmod c {{\n    #[storage]\n    struct Storage {{}}\n    #[external(v0)]\n    fn e(ref self: ContractState{sep}{params}) {{ let _r = {ret}; }}\n    #[external(v0)]\n    fn r(self: @ContractState{sep}{params}) -> felt252 {{ let _r = {ret}; 7 }}\n}}\n")
+}
+
 fn run(ctx: &mut Ctx) {
     let tier = ctx.tier;
     // (1) the published classes in the repository's test data
@@ -405,36 +478,17 @@ fn run(ctx: &mut Ctx) {
                 || json!({"space":"generated-contracts","subset":subset,"constructor":ctor,"l1_handler":l1}),
                 |ctx| {
                     let src = generated_contract(subset, ctor, l1);
-                    let mut db = starknet_db();
-                    let ci = crate::pipe::set_src(&mut db, "gen", &src);
-                    let reporter = cairo_lang_compiler::diagnostics::DiagnosticsReporter::ignoring().with_crates(std::slice::from_ref(&ci)).allow_warnings();
-                    let ids = CrateInput::into_crate_ids(&db, vec![ci]);
-                    let contracts = find_contracts(&db, &ids);
-                    let refs: Vec<_> = contracts.iter().collect();
-                    match compile_prepared_db(&db, &refs, CompilerConfig { replace_ids: true, diagnostics_reporter: reporter, ..Default::default() }) {
-                        Err(e) => {
-                            ctx.count("generated_not_compiled", 1);
-                            ctx.note(format!("generated subset {subset}: {e}: {}", cairo_lang_compiler::diagnostics::get_diagnostics_as_string(&db, Some(ids.clone()))).chars().take(700).collect());
-                        }
-                        Ok(classes) => {
-                            for (c, class) in contracts.iter().zip(classes) {
-                                let mem = extract_semantic_entrypoints(&db, c).ok().and_then(|eps| {
-                                    let fids: Vec<ConcreteFunctionWithBodyId<'_>> = eps.external.iter().chain(&eps.l1_handler).chain(&eps.constructor).map(|f| f.value).collect();
-                                    let p = db.get_sierra_program_for_functions(fids).ok()?;
-                                    let named = cairo_lang_sierra_generator::replace_ids::replace_sierra_ids_in_program(&db, &p.program);
-                                    Some(CanonicalReplacer::from_program(&named).apply(&named))
-                                });
-                                let expect_eps = subset.count_ones() as usize;
-                                if class.entry_points_by_type.external.len() != expect_eps || class.entry_points_by_type.constructor.len() != ctor as usize || class.entry_points_by_type.l1_handler.len() != l1 as usize {
-                                    ctx.violation("generated-entry-point-count", "the class does not list exactly the declared entry points", json!({"subset":subset,"source":src}));
-                                }
-                                check_class(ctx, &format!("generated:{subset}:{ctor}:{l1}"), &class, mem.as_ref());
-                            }
-                        }
-                    }
+                    check_generated(ctx, &format!("generated:{subset}:{ctor}:{l1}"), &src, Some((subset.count_ones() as usize, ctor as usize, l1 as usize)));
                 },
             );
         }
+    }
+    // (4) the length ladder and (5) parameter shapes
+    for k in 0..tier.pick(8usize, 70) {
+        ctx.case(|| json!({"space":"length-ladder","appended_constants":k}), |ctx| check_generated(ctx, &format!("ladder:{k}"), &ladder_contract(k), Some((1, 0, 0))));
+    }
+    for i in 0..SHAPES.len() {
+        ctx.case(|| json!({"space":"parameter-shapes","shape":SHAPES[i].0}), |ctx| check_generated(ctx, &format!("shape:{}", SHAPES[i].0), &shape_contract(i), Some((2, 0, 0))));
     }
 }
 
@@ -444,7 +498,7 @@ fn _v(_: Value) {}
 pub static C19: CheckDef = CheckDef {
     id: "C19",
     level: "exploration",
-    rule: "Enumerated: (1) every *.contract_class.json under crates/cairo-lang-starknet/test_data; (2) every contract of cairo_level_tests/ and test_data/ compiled in-process (compared with the compiler's own in-memory Sierra for that contract); (3) generated contracts: entry-point subsets of a 6-function menu using different builtins (none, pedersen, poseidon, bitwise, ec_op, dict+storage) x constructor {y,n} x l1_handler {y,n} (quick: subsets of size <=1 and the full set; thorough: all 64 x 4); each x {pythonic hints on/off} x max_bytecode_size {exact, exact-1, 0}. Oracle on CasmContractClass::from_contract_class(extract(class)): bytecode == direct compile of the extracted program == direct compile of the compiler's in-memory program; extracted Sierra == in-memory Sierra; every entry offset == start of the function's entry statement and an instruction start; builtins == the function's builtin parameters, in protocol order (independent table); entry points strictly sorted by selector; every word < P; hint offsets are instruction starts, increasing; segment lengths sum to the bytecode length and cut at function starts; compiled class hashes and the class itself stable under JSON round trips; size limit exact passes / exact-1 is a clean error, never a panic.",
+    rule: "Enumerated: (1) every *.contract_class.json under crates/cairo-lang-starknet/test_data; (2) every contract of cairo_level_tests/ and test_data/ compiled in-process (compared with the compiler's own in-memory Sierra for that contract); (3) generated contracts: entry-point subsets of a 6-function menu using different builtins (none, pedersen, poseidon, bitwise, ec_op, dict+storage) x constructor {y,n} x l1_handler {y,n} (quick: subsets of size <=1 and the full set; thorough: all 64 x 4); (4) a length ladder: one external function appending k constants, k < 8 (thorough 70), so the felt-serialized program takes every length residue of the vector compression (observed residues mod 31 are listed in observed_outcomes); (5) 14 parameter / return shapes (none, felt, ints, u256, bool, arrays, spans, tuples, options, ByteArray, 8 parameters, addresses, nested arrays) each as a mutable and a view entry point; each x {pythonic hints on/off} x max_bytecode_size {exact, exact-1, 0}. Oracle on CasmContractClass::from_contract_class(extract(class)): bytecode == direct compile of the extracted program == direct compile of the compiler's in-memory program; extracted Sierra == in-memory Sierra; every entry offset == start of the function's entry statement and an instruction start; builtins == the function's builtin parameters, in protocol order (independent table); entry points strictly sorted by selector; every word < P; hint offsets are instruction starts, increasing; segment lengths sum to the bytecode length and cut at function starts; compiled class hashes and the class itself stable under JSON round trips; size limit exact passes / exact-1 is a clean error, never a panic.",
     assumptions: &["the protocol builtin order is the Starknet OS order pedersen, range_check, bitwise, ec_op, poseidon, segment_arena, range_check96, add_mod, mul_mod"],
     run,
     stack_mb: 32,
